@@ -249,6 +249,13 @@ Definition item_id (it : item) : list nat :=
 Definition dyn_of_item (it : item) : list (nat * list nat) :=
   match it with SizeVar k _ sizes => [(k, sizes)] | _ => [] end.
 
+(* observables of an item list: total byte size, symbol indices, size symbols with candidates *)
+Fixpoint lsum (l : list nat) : nat := match l with [] => O | x :: r => (x + lsum r)%nat end.
+Definition items_size (its : list item) : nat := lsum (map item_size its).
+Definition ids (its : list item) : list nat := flat_map item_id its.
+Definition dyns (its : list item) : list (nat * list nat) := flat_map dyn_of_item its.
+Definition dpair (d : dynp) : nat * list nat := (d_id d, d_sizes d).
+
 (* ------------------------------------------------------------------ calldataload on a size symbol *)
 
 (* Concretization.process_dyn_params: candidates[d.size_symbol] = d.size_choices *)
